@@ -81,6 +81,12 @@ def worker(ctx, shard):
         diff = {z: l[i].split("|", 3)[3] for z, l in others.items() if l[i] != line}
         st = _stratum(op)
         ctx.event("calls_compared")
+        if res.startswith("EXC "):
+            ctx.event("calls_raising_in_UTC")
+            if st == "export" or res == "EXC TypeError":
+                # an export (or a call) that raises identically everywhere proves nothing about zones
+                ctx.judge(st, INCONCLUSIVE, None, reason="battery call raised %s in every zone: %s" % (res, op))
+                continue
         if diff:
             ctx.judge(st, VIOLATED, {"spec": spec, "line": i, "op": op, "args": args},
                       finding={"op": op, "args": args, "UTC": res[:300], "others": {z: v[:300] for z, v in diff.items()}}, key="tz-dependent:" + op)
